@@ -98,7 +98,18 @@ def execute(sc, ctx):
     # choose kills
     kills = []
     if sc["kills"] == "all":
-        for k in range(E):
+        ks = list(range(E))
+        if E > 150:
+            # very small write buffers give thousands of effects: keep every non-write effect, the first and last
+            # writes of every file, and an evenly spread sample of the rest
+            keep = {k for k in ks if effects[k][1] != "write"}
+            keep |= {k for k in ks if k > 0 and effects[k - 1][1] != "write"} | {k for k in ks if k + 1 < E and effects[k + 1][1] != "write"}
+            rest = [k for k in ks if k not in keep]
+            step = max(1, len(rest) // 120)
+            keep |= set(rest[::step])
+            ks = sorted(keep)
+            ctx.probe("thorough_kill_points_sampled")
+        for k in ks:
             kills.append({"at": k, "mode": "before"})
             if effects[k][1] == "write" and effects[k][3] > 1:
                 kills.append({"at": k, "mode": "partial", "bytes": max(1, effects[k][3] // 2)})
@@ -119,9 +130,14 @@ def execute(sc, ctx):
         kills = list(sc["kills"])
     n_prior = max([len(h.generations) for h in pre_hist.values()] + [0])
     depth = max([hr.count(os.sep) for hr in pre_hist] + [0])
+    import time as _time
+
     for kl in kills:
         if kl["at"] >= E:
             continue
+        if ctx.deadline is not None and _time.time() > ctx.deadline:
+            ctx.probe("run_cut_short_by_budget")
+            break
         ctx.evaluations += 1
         eff = effects[kl["at"]]
         fclass = _file_class(eff[2])
